@@ -360,6 +360,21 @@ public:
     return ConnectResult::ok(sid);
   }
 
+  /// \brief connect() to an already-resolved address on behalf of host name
+  /// \p tlsServerName (SNI + certificate name check use that name).
+  ConnectResult connectWithTlsName(const std::string &host, std::uint16_t port, TlsMode tls,
+                                   const std::string &tlsServerName) override
+  {
+    SessionId sid = _nextSessionId++;
+    ConnectReq cr{sid, host, port, tls, tlsServerName};
+    if (!enqueue(Command::connect(cr)))
+    {
+      return ConnectResult::err(
+        TransportErrorInfo{TransportError::ShuttingDown, "connect: transport shutting down"});
+    }
+    return ConnectResult::ok(sid);
+  }
+
   /// \brief Queue a send on a session (non-blocking; may enqueue on EAGAIN).
   bool send(SessionId sid, const void *data, std::size_t n) override
   {
@@ -724,6 +739,7 @@ private:
     std::string host;
     std::uint16_t port{};
     TlsMode tls{TlsMode::None};
+    std::string tlsName; // name to verify / send as SNI when host is an already-resolved address
   };
 
   struct SendReq
@@ -1726,14 +1742,17 @@ private:
       // Connection made to a host NAME (not an IP literal): send it as SNI and, when
       // peer verification is on, bind the certificate check to that name — a chain
       // to a trusted CA is not enough, the certificate must be issued for the host
-      // we asked for (RFC 6125). IP-literal targets keep the previous behaviour.
-      if (!manualAddrinfo && !cr.host.empty())
+      // we asked for (RFC 6125). IP-literal targets keep the previous behaviour,
+      // unless the caller resolved the name itself and says which name the address
+      // stands for (connectWithTlsName, used by HttpClient).
+      const std::string &tlsName = !cr.tlsName.empty() ? cr.tlsName : cr.host;
+      if ((!manualAddrinfo || !cr.tlsName.empty()) && !tlsName.empty())
       {
-        (void)::SSL_set_tlsext_host_name(s->ssl, cr.host.c_str());
+        (void)::SSL_set_tlsext_host_name(s->ssl, tlsName.c_str());
         if (_config.clientTls.verifyPeer)
         {
           ::SSL_set_hostflags(s->ssl, X509_CHECK_FLAG_NO_PARTIAL_WILDCARDS);
-          if (::SSL_set1_host(s->ssl, cr.host.c_str()) != 1)
+          if (::SSL_set1_host(s->ssl, tlsName.c_str()) != 1)
           {
             decltype(_cbs.onClose) closeCb;
             { std::lock_guard<std::mutex> g(_cbMutex); closeCb = _cbs.onClose; }
